@@ -214,10 +214,12 @@ class Mamba2020Pass( UnrollSimPass ):
       scc_blks = [ unwrap.get( x, x ) for x in scc ]
       for x in scc_blks:
         if x in onces:
+          # generated blocks (net / slice propagation) have no host component
+          hosts = top._dsl.all_upblk_hostobj
           raise UpblkCyclicError("update_once blocks are not allowed to appear in a cycle. \n - " + \
                           "\n - ".join( [
                             f"{y.__name__} ({'@update_once' if y in onces else '@update'} " \
-                            f"in 'top.{repr(top.get_update_block_host_component(y))[2:]}')"
+                            f"in 'top.{repr(hosts[y])[2:]}')" if y in hosts else f"{y.__name__} (generated net block)"
                             for y in scc_blks] ))
 
       scc_id += 1
